@@ -218,46 +218,53 @@ def playGame (bufs : List Buf) (n1 n2 : Int) : Int × Int :=
 
 /-- merge.go:896-909; returns the winner of the subtree at `i` and the updated losers -/
 def playInitialGames (bufs : List Buf) (leaves : List Int) : Nat → Nat → List Int → Int × List Int
-  | 0, _, losers => (-1, losers)
+  | 0, i, losers =>
+    if i ≥ bufs.length then
+      (if i - bufs.length < leaves.length then leaves.getD (i - bufs.length) (-1) else -1, losers)
+    else (-1, losers)
   | f + 1, i, losers =>
-    let k := bufs.length
-    if i ≥ k then
-      (if i - k < leaves.length then leaves.getD (i - k) (-1) else -1, losers)
+    if i ≥ bufs.length then
+      (if i - bufs.length < leaves.length then leaves.getD (i - bufs.length) (-1) else -1, losers)
     else
-      let (n1, losers) := playInitialGames bufs leaves f (2 * i + 1) losers
-      let (n2, losers) := playInitialGames bufs leaves f (2 * i + 2) losers
-      let (loser, winner) := playGame bufs n1 n2
-      (winner, losers.set i loser)
+      let r1 := playInitialGames bufs leaves f (2 * i + 1) losers
+      let r2 := playInitialGames bufs leaves f (2 * i + 2) r1.2
+      let g := playGame bufs r1.1 r2.1
+      (g.2, r2.2.set i g.1)
+
+/-- merge.go:930-937: the game played at `offset` between the stored loser and the candidate -/
+def replayStep (bufs : List Buf) (offset : Nat) (winner : Int) (losers : List Int) : Int × List Int :=
+  if losers.getD offset (-1) ≥ 0 &&
+      (winner < 0 || cmp (headOf bufs (losers.getD offset (-1))) (headOf bufs winner) < 0) then
+    (losers.getD offset (-1), losers.set offset winner)
+  else (winner, losers)
 
 /-- merge.go:929-942, the loop of `replayGames` from `offset` to the root -/
 def replayLoop (bufs : List Buf) : Nat → Nat → Int → List Int → Int × List Int
   | 0, _, winner, losers => (winner, losers)
   | f + 1, offset, winner, losers =>
-    let player := losers.getD offset (-1)
-    let (winner, losers) :=
-      if player ≥ 0 && (winner < 0 || cmp (headOf bufs player) (headOf bufs winner) < 0) then
-        (player, losers.set offset winner)
-      else (winner, losers)
-    if offset = 0 then (winner, losers) else replayLoop bufs f ((offset - 1) / 2) winner losers
+    if offset = 0 then replayStep bufs offset winner losers
+    else replayLoop bufs f ((offset - 1) / 2) (replayStep bufs offset winner losers).1
+      (replayStep bufs offset winner losers).2
 
 /-- merge.go:927-945 -/
 def MK.replayGames (st : MK) : MK :=
-  let (w, losers) := replayLoop st.bufs st.bufs.length ((st.winnerLeaf.toNat - 1) / 2) st.winner st.losers
-  { st with losers := losers, winner := w, winnerLeaf := (st.bufs.length : Int) + w }
+  let r := replayLoop st.bufs st.bufs.length ((st.winnerLeaf.toNat - 1) / 2) st.winner st.losers
+  { st with losers := r.2, winner := r.1, winnerLeaf := (st.bufs.length : Int) + r.1 }
+
+/-- merge.go:882-886: one step of `runBound` -/
+def runBoundStep (bufs : List Buf) (losers : List Int) (offset : Nat) (bound : Option Row) : Option Row :=
+  if losers.getD offset (-1) ≥ 0 then
+    match bound with
+    | none => some (headOf bufs (losers.getD offset (-1)))
+    | some b => if cmp (headOf bufs (losers.getD offset (-1))) b < 0 then some (headOf bufs (losers.getD offset (-1))) else some b
+  else bound
 
 /-- merge.go:880-891 `runBound`: the minimum head over the losers stored on the winner's path -/
 def runBoundLoop (bufs : List Buf) (losers : List Int) : Nat → Nat → Option Row → Option Row
   | 0, _, bound => bound
   | f + 1, offset, bound =>
-    let player := losers.getD offset (-1)
-    let bound :=
-      if player ≥ 0 then
-        let head := headOf bufs player
-        match bound with
-        | none => some head
-        | some b => if cmp head b < 0 then some head else some b
-      else bound
-    if offset = 0 then bound else runBoundLoop bufs losers f ((offset - 1) / 2) bound
+    if offset = 0 then runBoundStep bufs losers offset bound
+    else runBoundLoop bufs losers f ((offset - 1) / 2) (runBoundStep bufs losers offset bound)
 
 def MK.runBound (st : MK) : Option Row :=
   runBoundLoop st.bufs st.losers st.bufs.length ((st.winnerLeaf.toNat - 1) / 2) none
@@ -271,9 +278,15 @@ def MK.initialize (st : MK) : MK :=
   let count := (rd.filter Option.isSome).length
   let st := { st with bufs := bufs, losers := List.replicate k 0, count := count, initialized := true }
   if count > 0 then
-    let (w, losers) := playInitialGames bufs leaves (k + 2) 0 st.losers
-    { st with losers := losers, winner := w, winnerLeaf := (k : Int) + w }
+    let r := playInitialGames bufs leaves k 0 st.losers
+    { st with losers := r.2, winner := r.1, winnerLeaf := (k : Int) + r.1 }
   else st
+
+/-- merge.go:838-841: length of the run inside the (truncated) window -/
+def runOf (bound : Option Row) (window : List Row) : Nat :=
+  match bound with
+  | some b => runLength window b 0
+  | none => window.length
 
 /-- merge.go:833-852: the bulk emission loop of run mode on the winner's buffer `c`;
     `m` = `len(rows) - n`. Result: rows, buffer, `true` if the function returned (`!c.advance`) -/
@@ -281,58 +294,52 @@ def runEmit (bound : Option Row) : Nat → Nat → Buf → List Row × Buf × Bo
   | 0, _, c => ([], c, false)
   | f + 1, m, c =>
     if m = 0 then ([], c, false) else
-    let window := c.win.take m
-    let run := match bound with
-      | some b => runLength window b 0
-      | none => window.length
-    let (c', more) := c.advance run
-    if !more then (window.take run, c', true)
-    else if run < window.length then (window.take run, c', false)
+    let run := runOf bound (c.win.take m)
+    if !(c.advance run).2 then ((c.win.take m).take run, (c.advance run).1, true)
+    else if run < (c.win.take m).length then ((c.win.take m).take run, (c.advance run).1, false)
     else
-      let (o, c'', ret) := runEmit bound f (m - run) c'
-      (window.take run ++ o, c'', ret)
+      let rec_ := runEmit bound f (m - run) (c.advance run).1
+      ((c.win.take m).take run ++ rec_.1, rec_.2)
 
 def MK.setBuf (st : MK) (c : Buf) : MK := { st with bufs := st.bufs.set st.winner.toNat c }
+
+def MK.cur (st : MK) : Buf := st.bufs.getD st.winner.toNat (Buf.fresh [] [])
+
+/-- merge.go:806-810 / 858-864: replay and update the streak -/
+def MK.replayKeep (st : MK) (prev : Int) : MK :=
+  if st.replayGames.winner ≠ prev then { st.replayGames with streak := 0 } else st.replayGames
+
+def MK.replayCount (st : MK) (prev : Int) : MK :=
+  if st.replayGames.winner = prev then { st.replayGames with streak := st.streak + 1 }
+  else { st.replayGames with streak := 0 }
 
 /-- merge.go:788-865, `m` = `len(rows) - n` -/
 def MK.loop : Nat → Nat → MK → List Row × MK
   | 0, _, st => ([], st)
   | f + 1, m, st =>
     if m = 0 || st.count = 0 then ([], st) else
-    let c := st.bufs.getD st.winner.toNat (Buf.fresh [] [])
-    if c.empty then
-      match c.read with
-      | some c' =>
-        let st1 := st.setBuf c'
-        let st2 := st1.replayGames
-        MK.loop f m (if st2.winner ≠ st.winner then { st2 with streak := 0 } else st2)
-      | none =>
-        let st1 := { st with winner := -1, count := st.count - 1 }
-        let st2 := st1.replayGames
-        MK.loop f m (if st2.winner ≠ -1 then { st2 with streak := 0 } else st2)
+    if st.cur.empty then
+      match st.cur.read with
+      | some c' => MK.loop f m ((st.setBuf c').replayKeep st.winner)
+      | none => MK.loop f m ({ st with winner := -1, count := st.count - 1 }.replayKeep (-1))
     else
-      let h := c.head
-      let (c1, more) := c.advance 1
-      let st1 := st.setBuf c1
-      if !more then ([h], st1)
+      let st1 := st.setBuf (st.cur.advance 1).1
+      if !(st.cur.advance 1).2 then ([st.cur.head], st1)
       else if st.streak ≥ runDetectionStreak then
-        let (o, c2, ret) := runEmit st1.runBound (m - 1) (m - 1) c1
-        let st2 := st1.setBuf c2
-        if ret then (h :: o, st2)
+        let e := runEmit st1.runBound (m - 1) (m - 1) (st.cur.advance 1).1
+        if e.2.2 then (st.cur.head :: e.1, st1.setBuf e.2.1)
         else
-          let (o', st3) := MK.loop f (m - 1 - o.length) { st2 with streak := 0 }.replayGames
-          (h :: (o ++ o'), st3)
+          let rec_ := MK.loop f (m - 1 - e.1.length) { st1.setBuf e.2.1 with streak := 0 }.replayGames
+          (st.cur.head :: (e.1 ++ rec_.1), rec_.2)
       else
-        let st2 := st1.replayGames
-        let st3 := if st2.winner = st.winner then { st2 with streak := st.streak + 1 } else { st2 with streak := 0 }
-        let (o', st4) := MK.loop f (m - 1) st3
-        (h :: o', st4)
+        let rec_ := MK.loop f (m - 1) (st1.replayCount st.winner)
+        (st.cur.head :: rec_.1, rec_.2)
 
 /-- merge.go:779-872 `ReadRows(rows)` with `len(rows) = m`; `true` = io.EOF -/
 def MK.readRows (st : MK) (m : Nat) : List Row × Bool × MK :=
   let st := if st.initialized then st else st.initialize
-  let (o, st') := MK.loop (2 * m + 2) m st
-  (o, st'.count = 0, st')
+  let r := MK.loop (2 * m + 2) m st
+  (r.1, r.2.count = 0, r.2)
 
 /-! ## mergeRowReaders dispatch (merge.go:531-555) and a whole read session -/
 
